@@ -1073,24 +1073,60 @@ func (e *ownEngine) registerHook(fn *ssa.Function, in ssa.Instruction, host stri
 		return
 	}
 	cl := mc.Fn.(*ssa.Function)
-	if cl.Synthetic != "" { // bound method wrapper (collection idiom, checked by the child-counter rule)
-		return
+	type captured struct {
+		name string
+		typ  types.Type // type of the variable as seen by the hook body: a cell (pointer) for closures, the value for a receiver
+		bind ssa.Value
+		cell bool
+	}
+	var caps []captured
+	var hostParam *ssa.Parameter
+	if cl.Synthetic != "" {
+		// a method value r.m: the body is the method, its receiver is the one captured value. (The collection idiom
+		// "children report to onChildDone" completes the parent only on some paths; its summary is not "consumes" and it
+		// is checked by the child-counter rule.)
+		mo, _ := cl.Object().(*types.Func)
+		if mo == nil || len(mc.Bindings) != 1 {
+			return
+		}
+		m := cl.Prog.FuncValue(mo)
+		if m == nil || m.Blocks == nil || len(m.Params) == 0 {
+			return
+		}
+		cl = m
+		caps = append(caps, captured{m.Params[0].Name(), m.Params[0].Type(), mc.Bindings[0], false})
+		if len(m.Params) == 2 {
+			hostParam = m.Params[1]
+		}
+	} else {
+		for i, f := range cl.FreeVars {
+			caps = append(caps, captured{f.Name(), f.Type(), mc.Bindings[i], true})
+		}
+		if len(cl.Params) == 1 {
+			hostParam = cl.Params[0]
+		}
 	}
 	// the hook must not complete its own host (its parameter)
-	if len(cl.Params) == 1 {
-		if sm := e.summary(cl, cl.Params[0].Name()); sm.kind == ownConsumes || sm.kind == ownBad {
-			e.findings = append(e.findings, ownFinding{fn: cl, obj: cl.Params[0].Name(), kind: "double", trace: "hook completes its own host", pos: cl.Pos(),
+	if hostParam != nil {
+		if sm := e.summary(cl, hostParam.Name()); sm.kind == ownConsumes || sm.kind == ownBad {
+			e.findings = append(e.findings, ownFinding{fn: cl, obj: hostParam.Name(), kind: "double", trace: "hook completes its own host", pos: cl.Pos(),
 				detail: "a completion hook calls SetResponse on the request it is registered on: completing twice"})
 		}
 	}
 	fo := e.analyse(cl)
-	for i, f := range cl.FreeVars {
-		root := f.Name()
-		// outer object bound to this free variable
-		b := mc.Bindings[i]
+	for _, cp := range caps {
+		root := cp.name
+		// outer object bound to this captured variable
+		b := cp.bind
 		var outerRoot string
 		isReq := false
-		if pt, ok := f.Type().Underlying().(*types.Pointer); ok && isReqType(pt.Elem()) {
+		if !cp.cell {
+			if isReqType(cp.typ) {
+				outerRoot = e.objKey(b)
+			} else {
+				outerRoot = e.baseKey(b)
+			}
+		} else if pt, ok := cp.typ.Underlying().(*types.Pointer); ok && isReqType(pt.Elem()) {
 			isReq = true
 			// binding is the cell of a variable: resolve its single store
 			if al, ok := b.(*ssa.Alloc); ok {
